@@ -55,6 +55,14 @@ def mk_tx(shape, rng, sizes=REP, cb=False, idx=0):
 
 def mk_aux(a, rng, sizes=REP):
     cb = mk_tx(a['cb'], rng, sizes)
+    # the parent coinbase is opaque to a parser: its script may hold the merged-mining tag (fa be 6d 6d + root + size + nonce)
+    # complete, cut short, or at the very end
+    if cb['ins'] and len(cb['ins'][0]['sig']) >= 4 and rng.random() < 0.6:
+        sg = bytearray(cb['ins'][0]['sig'])
+        tail = rng.choice([0, 1, 10, 39, 40, 44])
+        pos = max(0, len(sg) - 4 - tail)
+        sg[pos:pos + 4] = b'\xfa\xbe\x6d\x6d'
+        cb['ins'][0]['sig'] = bytes(sg)
     return btc.auxpow(cb, rng.randbytes(32), [rng.randbytes(32) for _ in range(a['b1'])], rng.randrange(2 ** 32),
                       [rng.randbytes(32) for _ in range(a['b2'])], rng.randrange(2 ** 32),
                       btc.header(rng.randrange(2 ** 32), rng.randbytes(32), rng.randbytes(32), rng.randrange(2 ** 32), 0x1d00ffff, rng.randrange(2 ** 32)))
